@@ -1,4 +1,5 @@
 import OVM.IO.Ascii.Parse
+import OVM.Base.Bits
 /-
   Invariants of the reader model (proof-only file): handle bounds established by the range checks,
   frame conditions of every loop, lengths of property blocks, and the input-consuming measure of the
@@ -150,16 +151,53 @@ theorem any_oob_false {faces : List (List Nat)} {hfs : List Nat} (hb : ∀ x ∈
   have := hb x hx
   simp; omega
 
-theorem cellDec_accept {cfg : Cfg} (hk : HexOK cfg) {faces : List (List Nat)} {hfs l : List Nat}
-    (h : cellDec cfg faces hfs = .accept l) : ∀ x ∈ l, x ∈ hfs := by
+/-- every halfedge of a stored face designates an existing edge (what `faceDec` checked before the face was
+    stored): the halfedges of any halfface — either orientation — do so too -/
+theorem hfHalfedges_bound {edges : List (Nat × Nat)} {faces : List (List Nat)}
+    (hfe : ∀ f ∈ faces, ∀ x ∈ f, x < 2 * edges.length) (hf : Nat) : ∀ x ∈ hfHalfedges faces hf, x / 2 < edges.length := by
+  have hmem : ∀ y ∈ faces.getD (hf / 2) [], y < 2 * edges.length := by
+    intro y hy
+    rw [List.getD_eq_getElem?_getD] at hy
+    cases hq : faces[hf / 2]? with
+    | none => rw [hq] at hy; simp at hy
+    | some f =>
+      rw [hq] at hy
+      exact hfe f (List.mem_of_getElem? hq) y (by simpa using hy)
+  intro x hx
+  unfold hfHalfedges at hx
+  simp only at hx
+  split at hx
+  · have := hmem x hx; omega
+  · simp only [List.map_reverse, List.mem_reverse, List.mem_map] at hx
+    obtain ⟨y, hy, rfl⟩ := hx
+    rw [xor_one_div]
+    have := hmem y hy; omega
+
+/-- the guard in front of the vertex-count test of the tet/hex `add_cell` is never taken in the reader:
+    the lemma C07 needs for the new `.fault` exit -/
+theorem any_he_oob_false {edges : List (Nat × Nat)} {faces : List (List Nat)} (hfs : List Nat)
+    (hfe : ∀ f ∈ faces, ∀ x ∈ f, x < 2 * edges.length) :
+    ((hfs.flatMap (hfHalfedges faces)).any fun h => decide (edges.length ≤ h / 2)) = false := by
+  rw [List.any_eq_false]
+  intro x hx
+  obtain ⟨hf, _, hxm⟩ := List.mem_flatMap.mp hx
+  have := hfHalfedges_bound hfe hf x hxm
+  simp; omega
+
+theorem cellDec_accept {cfg : Cfg} (hk : HexOK cfg) {edges : List (Nat × Nat)} {faces : List (List Nat)} {hfs l : List Nat}
+    (h : cellDec cfg edges faces hfs = .accept l) : ∀ x ∈ l, x ∈ hfs := by
   unfold cellDec at h
   split at h
   · rw [cellDecBase_accept h]; exact fun x hx => hx
   · split at h <;> try (simp at h)
     split at h <;> try (simp at h)
     split at h <;> try (simp at h)
+    split at h <;> try (simp at h)
+    split at h <;> try (simp at h)
     rw [cellDecBase_accept h]; exact fun x hx => hx
   · split at h <;> try (simp at h)
+    split at h <;> try (simp at h)
+    split at h <;> try (simp at h)
     split at h <;> try (simp at h)
     split at h <;> try (simp at h)
     split at h
@@ -170,9 +208,11 @@ theorem cellDec_accept {cfg : Cfg} (hk : HexOK cfg) {faces : List (List Nat)} {h
         rw [cellDecBase_accept h]
         exact hk _ _ _ hl'
 
-theorem cellDec_no_fault {cfg : Cfg} (hk : HexOK cfg) {faces : List (List Nat)} {hfs : List Nat}
-    (hb : ∀ x ∈ hfs, x < 2 * faces.length) : cellDec cfg faces hfs ≠ .fault := by
+theorem cellDec_no_fault {cfg : Cfg} (hk : HexOK cfg) {edges : List (Nat × Nat)} {faces : List (List Nat)} {hfs : List Nat}
+    (hb : ∀ x ∈ hfs, x < 2 * faces.length) (hfe : ∀ f ∈ faces, ∀ x ∈ f, x < 2 * edges.length) :
+    cellDec cfg edges faces hfs ≠ .fault := by
   have hoob := any_oob_false hb
+  have hhe := any_he_oob_false hfs hfe
   unfold cellDec
   split
   · exact cellDecBase_no_fault hb
@@ -181,18 +221,24 @@ theorem cellDec_no_fault {cfg : Cfg} (hk : HexOK cfg) {faces : List (List Nat)} 
     · rw [hoob]; simp only [Bool.false_eq_true, if_false]
       split
       · simp
-      · exact cellDecBase_no_fault hb
+      · rw [hhe]; simp only [Bool.false_eq_true, if_false]
+        split
+        · simp
+        · exact cellDecBase_no_fault hb
   · split
     · simp
     · rw [hoob]; simp only [Bool.false_eq_true, if_false]
       split
       · simp
-      · split
-        · exact cellDecBase_no_fault hb
+      · rw [hhe]; simp only [Bool.false_eq_true, if_false]
+        split
+        · simp
         · split
-          · simp
-          · rename_i l' hl'
-            exact cellDecBase_no_fault (fun x hx => hb x (hk _ _ _ hl' x hx))
+          · exact cellDecBase_no_fault hb
+          · split
+            · simp
+            · rename_i l' hl'
+              exact cellDecBase_no_fault (fun x hx => hb x (hk _ _ _ hl' x hx))
 
 /-! ### loop bodies -/
 
@@ -316,11 +362,11 @@ theorem faceStep_len (cfg : Cfg) (edges : List (Nat × Nat)) (nHE i : Nat) (st :
         · rename_i hd; rw [hd] at h; simp at h
         · rename_i hd; rw [hd] at h; simp at h
 
-theorem cellStep_facts (cfg : Cfg) (faces : List (List Nat)) (nHF i : Nat) (st : RS) :
-    (cellStep cfg faces nHF i st).verts = st.verts ∧ (cellStep cfg faces nHF i st).edges = st.edges ∧
-    (cellStep cfg faces nHF i st).faces = st.faces ∧ (cellStep cfg faces nHF i st).props = st.props ∧
-    (cellStep cfg faces nHF i st).dV = st.dV ∧ (cellStep cfg faces nHF i st).dE = st.dE ∧
-    (cellStep cfg faces nHF i st).dF = st.dF := by
+theorem cellStep_facts (cfg : Cfg) (edges : List (Nat × Nat)) (faces : List (List Nat)) (nHF i : Nat) (st : RS) :
+    (cellStep cfg edges faces nHF i st).verts = st.verts ∧ (cellStep cfg edges faces nHF i st).edges = st.edges ∧
+    (cellStep cfg edges faces nHF i st).faces = st.faces ∧ (cellStep cfg edges faces nHF i st).props = st.props ∧
+    (cellStep cfg edges faces nHF i st).dV = st.dV ∧ (cellStep cfg edges faces nHF i st).dE = st.dE ∧
+    (cellStep cfg edges faces nHF i st).dF = st.dF := by
   unfold cellStep
   simp only
   split
@@ -329,8 +375,8 @@ theorem cellStep_facts (cfg : Cfg) (faces : List (List Nat)) (nHF i : Nat) (st :
     · simp
     · split <;> simp
 
-theorem cellStep_fault (cfg : Cfg) (hk : HexOK cfg) (faces : List (List Nat)) (nHF i : Nat) (st : RS)
-    (hn : nHF ≤ 2 * faces.length) : (cellStep cfg faces nHF i st).fault = st.fault := by
+theorem cellStep_fault (cfg : Cfg) (hk : HexOK cfg) (edges : List (Nat × Nat)) (faces : List (List Nat)) (nHF i : Nat) (st : RS)
+    (hn : nHF ≤ 2 * faces.length) (hfe : ∀ f ∈ faces, ∀ x ∈ f, x < 2 * edges.length) : (cellStep cfg edges faces nHF i st).fault = st.fault := by
   unfold cellStep
   simp only
   split
@@ -343,10 +389,10 @@ theorem cellStep_fault (cfg : Cfg) (hk : HexOK cfg) (faces : List (List Nat)) (n
       · simp
       · simp
       · rename_i hd
-        exact absurd hd (cellDec_no_fault hk (fun x hx => Nat.lt_of_lt_of_le (hb x hx) hn))
+        exact absurd hd (cellDec_no_fault hk (fun x hx => Nat.lt_of_lt_of_le (hb x hx) hn) hfe)
 
-theorem cellStep_mem (cfg : Cfg) (hk : HexOK cfg) (faces : List (List Nat)) (nHF i : Nat) (st : RS)
-    (h : ∀ c ∈ st.cells, ∀ x ∈ c, x < nHF) : ∀ c ∈ (cellStep cfg faces nHF i st).cells, ∀ x ∈ c, x < nHF := by
+theorem cellStep_mem (cfg : Cfg) (hk : HexOK cfg) (edges : List (Nat × Nat)) (faces : List (List Nat)) (nHF i : Nat) (st : RS)
+    (h : ∀ c ∈ st.cells, ∀ x ∈ c, x < nHF) : ∀ c ∈ (cellStep cfg edges faces nHF i st).cells, ∀ x ∈ c, x < nHF := by
   unfold cellStep
   simp only
   split
@@ -364,9 +410,9 @@ theorem cellStep_mem (cfg : Cfg) (hk : HexOK cfg) (faces : List (List Nat)) (nHF
       · simpa using h
       · simpa using h
 
-theorem cellStep_len (cfg : Cfg) (faces : List (List Nat)) (nHF i : Nat) (st : RS)
-    (h : (cellStep cfg faces nHF i st).err = none) :
-    (cellStep cfg faces nHF i st).cells.length = st.cells.length + 1 := by
+theorem cellStep_len (cfg : Cfg) (edges : List (Nat × Nat)) (faces : List (List Nat)) (nHF i : Nat) (st : RS)
+    (h : (cellStep cfg edges faces nHF i st).err = none) :
+    (cellStep cfg edges faces nHF i st).cells.length = st.cells.length + 1 := by
   unfold cellStep at h ⊢
   simp only at h ⊢
   split
@@ -593,35 +639,36 @@ structure S4 (st : RS) : Prop where
     (∀ f ∈ st.faces, ∀ x ∈ f, x < 2 * st.edges.length) ∧
     (∀ c ∈ st.cells, ∀ x ∈ c, x < 2 * st.faces.length)
 
-theorem cellLoop_S4 (cfg : Cfg) (hk : HexOK cfg) (n nHF : Nat) (faces : List (List Nat)) (st0 : RS)
+theorem cellLoop_S4 (cfg : Cfg) (hk : HexOK cfg) (n nHF : Nat) (edges : List (Nat × Nat)) (faces : List (List Nat)) (st0 : RS)
     (hp : st0.props = []) (hfa : st0.fault = false) (hc : st0.cells = [])
     (hv : st0.verts.length = st0.dV) (he : st0.edges.length = st0.dE) (hf : st0.faces.length = st0.dF)
     (hem : ∀ e ∈ st0.edges, e.1 < st0.dV ∧ e.2 < st0.dV) (hfm : ∀ f ∈ st0.faces, ∀ x ∈ f, x < 2 * st0.dE)
-    (hF : st0.faces = faces) (hH : nHF = 2 * st0.dF) :
-    S4 { loopN (cellStep cfg faces nHF) n 0 st0 with cells := (loopN (cellStep cfg faces nHF) n 0 st0).cells.reverse } := by
-  subst hF hH
+    (hE : st0.edges = edges) (hF : st0.faces = faces) (hH : nHF = 2 * st0.dF) :
+    S4 { loopN (cellStep cfg edges faces nHF) n 0 st0 with cells := (loopN (cellStep cfg edges faces nHF) n 0 st0).cells.reverse } := by
+  subst hE hF hH
   have hle : 2 * st0.dF ≤ 2 * st0.faces.length := by omega
-  have hinv := loopN_inv (cellStep cfg st0.faces (2 * st0.dF))
+  have hfe : ∀ f ∈ st0.faces, ∀ x ∈ f, x < 2 * st0.edges.length := by rw [he]; exact hfm
+  have hinv := loopN_inv (cellStep cfg st0.edges st0.faces (2 * st0.dF))
     (fun st => st.props = [] ∧ st.fault = false ∧ st.verts = st0.verts ∧ st.edges = st0.edges ∧ st.faces = st0.faces ∧
       ∀ c ∈ st.cells, ∀ x ∈ c, x < 2 * st0.dF)
     (fun i st h => by
-      obtain ⟨a1, a2, a3, a4, _, _, _⟩ := cellStep_facts cfg st0.faces (2 * st0.dF) i st
-      exact ⟨a4.trans h.1, (cellStep_fault cfg hk _ _ i st hle).trans h.2.1, a1.trans h.2.2.1, a2.trans h.2.2.2.1,
-        a3.trans h.2.2.2.2.1, cellStep_mem cfg hk _ _ i st h.2.2.2.2.2⟩)
+      obtain ⟨a1, a2, a3, a4, _, _, _⟩ := cellStep_facts cfg st0.edges st0.faces (2 * st0.dF) i st
+      exact ⟨a4.trans h.1, (cellStep_fault cfg hk _ _ _ i st hle hfe).trans h.2.1, a1.trans h.2.2.1, a2.trans h.2.2.2.1,
+        a3.trans h.2.2.2.2.1, cellStep_mem cfg hk _ _ _ i st h.2.2.2.2.2⟩)
     n 0 st0 ⟨hp, hfa, rfl, rfl, rfl, by rw [hc]; simp⟩
   refine ⟨hinv.2.1, hinv.1, ?_⟩
   intro _
   refine ⟨?_, ?_, ?_⟩
-  · show ∀ e ∈ (loopN (cellStep cfg st0.faces (2 * st0.dF)) n 0 st0).edges,
-        e.1 < (loopN (cellStep cfg st0.faces (2 * st0.dF)) n 0 st0).verts.length ∧
-        e.2 < (loopN (cellStep cfg st0.faces (2 * st0.dF)) n 0 st0).verts.length
+  · show ∀ e ∈ (loopN (cellStep cfg st0.edges st0.faces (2 * st0.dF)) n 0 st0).edges,
+        e.1 < (loopN (cellStep cfg st0.edges st0.faces (2 * st0.dF)) n 0 st0).verts.length ∧
+        e.2 < (loopN (cellStep cfg st0.edges st0.faces (2 * st0.dF)) n 0 st0).verts.length
     rw [hinv.2.2.1, hinv.2.2.2.1, hv]; exact hem
-  · show ∀ f ∈ (loopN (cellStep cfg st0.faces (2 * st0.dF)) n 0 st0).faces,
-        ∀ x ∈ f, x < 2 * (loopN (cellStep cfg st0.faces (2 * st0.dF)) n 0 st0).edges.length
+  · show ∀ f ∈ (loopN (cellStep cfg st0.edges st0.faces (2 * st0.dF)) n 0 st0).faces,
+        ∀ x ∈ f, x < 2 * (loopN (cellStep cfg st0.edges st0.faces (2 * st0.dF)) n 0 st0).edges.length
     rw [hinv.2.2.2.1, hinv.2.2.2.2.1, he]; exact hfm
   · intro c hm
-    have hm' : c ∈ (loopN (cellStep cfg st0.faces (2 * st0.dF)) n 0 st0).cells := by simpa using hm
-    show ∀ x ∈ c, x < 2 * (loopN (cellStep cfg st0.faces (2 * st0.dF)) n 0 st0).faces.length
+    have hm' : c ∈ (loopN (cellStep cfg st0.edges st0.faces (2 * st0.dF)) n 0 st0).cells := by simpa using hm
+    show ∀ x ∈ c, x < 2 * (loopN (cellStep cfg st0.edges st0.faces (2 * st0.dF)) n 0 st0).faces.length
     rw [hinv.2.2.2.2.1, hf]
     exact hinv.2.2.2.2.2 c hm'
 
@@ -638,8 +685,8 @@ theorem sectCells_S4 (cfg : Cfg) (hx : HexOK cfg) (st : RS) (h3 : S3 st) (herr0 
     · rename_i herr
       exact ⟨hs.fault.trans (hk.fault.trans h3.fault), hs.props.trans (hk.props.trans h3.props),
         fun h => by rw [h] at herr; simp at herr⟩
-    · refine cellLoop_S4 cfg hx _ _ _ _ (hs.props.trans (hk.props.trans h3.props))
-        (hs.fault.trans (hk.fault.trans h3.fault)) (hs.cells.trans (hk.cells.trans h3.cells)) ?_ ?_ ?_ ?_ ?_ rfl rfl
+    · refine cellLoop_S4 cfg hx _ _ _ _ _ (hs.props.trans (hk.props.trans h3.props))
+        (hs.fault.trans (hk.fault.trans h3.fault)) (hs.cells.trans (hk.cells.trans h3.cells)) ?_ ?_ ?_ ?_ ?_ rfl rfl rfl
       · show (countLine cfg.lim (expectKeyword kPOLYHEDRA .noCells st)).1.verts.length = (countLine cfg.lim (expectKeyword kPOLYHEDRA .noCells st)).1.dV
         rw [hs.verts, hk.verts, hs.dV, hk.dV]; exact o1
       · show (countLine cfg.lim (expectKeyword kPOLYHEDRA .noCells st)).1.edges.length = (countLine cfg.lim (expectKeyword kPOLYHEDRA .noCells st)).1.dE
@@ -697,8 +744,8 @@ theorem faceStep_nofuel (cfg : Cfg) (edges : List (Nat × Nat)) (nHE i : Nat) (s
         · simp
         · simp
 
-theorem cellStep_nofuel (cfg : Cfg) (faces : List (List Nat)) (nHF i : Nat) (st : RS) (h : NoFuel st) :
-    NoFuel (cellStep cfg faces nHF i st) := by
+theorem cellStep_nofuel (cfg : Cfg) (edges : List (Nat × Nat)) (faces : List (List Nat)) (nHF i : Nat) (st : RS) (h : NoFuel st) :
+    NoFuel (cellStep cfg edges faces nHF i st) := by
   unfold cellStep NoFuel
   simp only
   split
@@ -763,7 +810,7 @@ theorem sectCells_nofuel (cfg : Cfg) (st : RS) (h : NoFuel st) : NoFuel (sectCel
   · exact hk
   · split
     · exact countLine_nofuel _ _ hk
-    · exact nofuel_of_err_eq _ (loopN (cellStep _ _ _) _ 0 _) rfl
-        (loopN_inv _ NoFuel (cellStep_nofuel _ _ _) _ _ _ (countLine_nofuel _ _ hk))
+    · exact nofuel_of_err_eq _ (loopN (cellStep _ _ _ _) _ 0 _) rfl
+        (loopN_inv _ NoFuel (cellStep_nofuel _ _ _ _) _ _ _ (countLine_nofuel _ _ hk))
 
 end OVM.Ascii
